@@ -15,6 +15,13 @@ void gen_writer_cfg(Plan &p, Rng &r, bool allow_pool, bool allow_wfrag, bool all
 size_t draw_n(Rng &r);
 void gen_sorted_adds(Plan &p, Rng &r, size_t n, int big_pm);
 
+// Option objects are filled in the way applications do it: setters in any order, some called twice, a value first set
+// to something else and then corrected, defaults set explicitly or not at all.  The variation is a pure function of
+// the plan (optvar_begin is called by main.cc before every execution).
+void optvar_begin(uint64_t seed);
+uint64_t optvar_next();
+mtbl_reader_options *make_reader_options(bool verify, bool madvise);
+
 // cfg wfrag=list takes the write faults from here; stats of the last armed write land in g_tablelib_wstats
 extern std::vector<sim_wfault> g_tablelib_wlist;
 extern sim_wstats g_tablelib_wstats;
